@@ -72,7 +72,9 @@ def run_case(case: dict, keep_log: bool = False) -> dict:
     res = {"violations": [], "aborted": None, "steps": 0, "stats": {}, "probes": {}, "harness_error": None}
     sim = None
     gc_was = gc.isenabled()
-    gc.disable()  # collected explicitly at quiescent points, see seams.quiesce_io
+    uses_io = any(o["op"] in ("save", "export", "reimport", "restart") for o in case["ops"])
+    if uses_io:
+        gc.disable()  # collected explicitly at quiescent points, see seams.quiesce_io
     try:
         sim = Sim(case["world"], set(case["props"]), case.get("opts"))
         if any(o["op"] in ("save", "export", "reimport", "restart") for o in case["ops"]):
